@@ -29,7 +29,7 @@ type genOpts struct {
 }
 
 var funcNames = []string{"main.main", "main.run", "foo", "bar", "baz", "runtime.mallocgc", "qux", "a.b.(*T).M", "main.run.func1", "compress/flate.(*compressor).deflate"}
-var fileNames = []string{"/src/main.go", "/src/lib/foo.go", "/src/lib/bar.go", "lib/baz.go", "/usr/go/src/runtime/malloc.go"}
+var fileNames = []string{"/src/main.go", "/src/lib/foo.go", "/src/lib/bar.go", "lib/baz.go", "/usr/go/src/runtime/malloc.go", "/build/remote/src/pkg/alpha.go"}
 var oddStrings = []string{"", " ", "<>", "a\"b", "x\\y", "new\nline", "<script>alert(1)</script>", "ünï", "\xff\xfe", "a|b", "(", "[", "$^", ".*", "_Z3fooi", "foo(int)", "operator<<", "&amp;", "%s%d", "{{.}}", "\x00"}
 
 func genProfile(t *simrt.Tape, o genOpts) *profile.Profile {
